@@ -30,6 +30,12 @@ type collModel struct {
 	seq  []cty.Value // members in order (list, tuple); members in offer order (set)
 	keys []string    // key / attribute names as offered, possibly in NFD spelling (map, object)
 	vals []cty.Value // vals[i] belongs to keys[i]
+	// via (set only): "" = cty.SetVal; "valueset" = the members reach the set value through a cty.ValueSet that
+	// has a history: members and the non-members in extras are added, the set is enumerated and queried, the
+	// non-members are removed again, and the result is wrapped with cty.SetValFromValueSet. The members the value
+	// "was constructed from" are the same Go slice either way.
+	via    string
+	extras []cty.Value
 }
 
 func (m collModel) n() int {
@@ -102,6 +108,29 @@ func (m collModel) construct() cty.Value {
 		}
 		return cty.ListVal(append([]cty.Value(nil), m.seq...))
 	case "set":
+		if m.via == "valueset" {
+			vs := cty.NewValueSet(m.ety)
+			for i, e := range m.seq {
+				vs.Add(e)
+				if i < len(m.extras) {
+					vs.Add(m.extras[i])
+					_ = vs.Values() // enumerated while the non-member is inside
+				}
+			}
+			for i := len(m.seq); i < len(m.extras); i++ {
+				vs.Add(m.extras[i])
+			}
+			_ = vs.Values()
+			_ = vs.Length()
+			for i, x := range m.extras {
+				vs.Remove(x)
+				if i%2 == 0 {
+					_ = vs.Has(x)
+					_ = vs.Values()
+				}
+			}
+			return cty.SetValFromValueSet(vs)
+		}
 		if len(m.seq) == 0 {
 			return cty.SetValEmpty(m.ety)
 		}
@@ -194,6 +223,9 @@ type collCase struct {
 func (cc collCase) canon() string {
 	var sb strings.Builder
 	sb.WriteString(cc.m.String())
+	if cc.m.via != "" {
+		fmt.Fprintf(&sb, " via:%s extras:%#v", cc.m.via, cc.m.extras)
+	}
 	sb.WriteString(" keys:")
 	for _, k := range cc.keys {
 		fmt.Fprintf(&sb, " %#v", k.v)
@@ -277,6 +309,10 @@ func checkColl(c *core.Ctx, idx int64, cc collCase, sampled bool) {
 	viol := func(site, facet, class, detail string) { c.Violate(site, facet, class, desc(), detail) }
 
 	ctor := map[string]string{"list": "cty.ListVal", "set": "cty.SetVal", "map": "cty.MapVal", "tuple": "cty.TupleVal", "object": "cty.ObjectVal"}[m.kind]
+	if m.via == "valueset" {
+		ctor = "cty.SetValFromValueSet"
+		c.Count("coll-via:valueset-history")
+	}
 	var coll cty.Value
 	out := core.Guard(func() { coll = m.construct() })
 	c.Eval(1)
@@ -1010,6 +1046,26 @@ func genCollCase(r *core.Rand) collCase {
 				}
 				cc.cands = append(cc.cands, cty.StringVal(norm.NFD.String(x.AsString())))
 				cc.cands = append(cc.cands, cty.StringVal(x.AsString()+"x"))
+			}
+		}
+		if r.Chance(1, 3) {
+			// through a ValueSet with a history; the non-members are candidates of the element type that equal no
+			// member and no earlier non-member (documented equality)
+			m.via = "valueset"
+			for _, x := range cc.cands[len(m.seq):] {
+				if len(m.extras) >= 4 || !x.Type().Equals(m.ety) || !x.IsWhollyKnown() {
+					continue
+				}
+				dup := false
+				for _, y := range append(append([]cty.Value(nil), m.seq...), m.extras...) {
+					if mon.ModelEqual(x, y) {
+						dup = true
+						break
+					}
+				}
+				if !dup {
+					m.extras = append(m.extras, x)
+				}
 			}
 		}
 		cc.cands = append(cc.cands, cty.NullVal(m.ety))
